@@ -21,7 +21,7 @@ func init() {
 		ID:    "C03",
 		Level: "exploration",
 		Rule: "one case = one generated table (aggregate grammar + PERCENTILE and arithmetic-over-PERCENTILE fields) + 60-300 points, executed under a baseline schedule (never flush) and K alternative schedules " +
-			"(flush every k-th insert; timer-driven with min/max latency; forced at PRNG indices; >=12 data-carrying flushes; sorted flushes under a memory cap; clean close+reopen between segments); " +
+			"(flush every k-th insert; timer-driven with min/max latency; forced at PRNG indices; >=12 data-carrying flushes; sorted flushes under a memory cap (in every real-clock case); clean close+reopen between segments); " +
 			"for each schedule the same generated queries (SELECT *, field subsets, derived and SHIFT fields, coarser groupings, ranges) must return the baseline's rows (1e-9), and after a final FlushAll disk-only == memstore-inclusive; " +
 			"non-trivial = the schedule performed >=1 data-carrying flush strictly between inserts (so some keys are split between file and memory); distinct by dataset+schedule hash",
 		Assumptions: []string{"nothing expires during the case (retention > data span)", "queries with unordered LIMIT are excluded (any n rows are allowed)"},
